@@ -149,7 +149,7 @@ theorem readAll_spec (u : Kw) (hdr : List Nat) (hc : Option (List Nat)) (b : Nat
     builds, pandas reads every file, the rows of all partitions in order are pandas' rows file after file, and every
     partition carries the columns pandas gives the first file -/
 theorem read_files_eq_pandas (u : Kw) (S : Nat) (f0 : List Nat) (rest : List (List Nat)) (b : Nat) (hb : 0 < b)
-    (hne : f0 ≠ []) (hS : f0.length < sampleSize u (some b) S) (hdr : List Nat) (hhdr : headerBytes u f0 = some hdr)
+    (hS : f0.length < sampleSize u (some b) S) (hdr : List Nat) (hhdr : headerBytes u f0 = some hdr)
     (hfiles : ∀ d ∈ f0 :: rest, FileOK u b d)
     (hsame : ∀ d ∈ rest, ∀ W W0, pdFrame u d = some W → pdFrame u f0 = some W0 → W.cols = W0.cols) :
     ∃ frames W0 Ws, readFiles u S (f0 :: rest) (some b) = some frames ∧ pandasAll u (f0 :: rest) = some (W0 :: Ws) ∧
@@ -196,23 +196,22 @@ theorem read_files_eq_pandas (u : Kw) (S : Nat) (f0 : List Nat) (rest : List (Li
       | none => simp [hp] at h2
       | some fs => simp [hp] at h2; exact h2.1.symm
     subst this
-    refine ⟨frames, W0', Ws, ?_, h2, h3, h4⟩
-    unfold readFiles readFilesWith
     have hts : sampleTooSmall u (sampleSize u (some b) S) f0 = false := by
       unfold sampleTooSmall
       simp [Nat.not_le.mpr hS]
-    simp only [sampleOf_short _ f0 (Nat.le_of_lt hS), hts, Bool.false_eq_true, if_false, hhdr, hW0, h1]
-    -- the first file is not empty, so there is a block and hence a partition
-    cases frames with
-    | cons f fs => rfl
+    cases hfr : frames with
     | nil =>
-      exfalso
-      obtain ⟨b0, bs, hbl, _⟩ := first_block_nonempty f0 b hb hsz hne blocks hblocks
-      subst hbl
-      simp only [readAll, readFileWith, hblocks, framesOf] at h1
-      cases hbf : blockFrame restKw u hdr W0'.cols true b0 <;> simp [hbf] at h1
-      cases hfo : framesOf restKw u hdr W0'.cols false bs <;> simp [hfo] at h1
-      cases hra : readAll restKw u hdr W0'.cols (some b) rest <;> simp [hra] at h1
+      -- every file is empty: one empty partition with the columns of `head`
+      subst hfr
+      refine ⟨[⟨W0'.cols, []⟩], W0', Ws, ?_, h2, by simpa using h3, by simp⟩
+      unfold readFiles readFilesWith
+      simp only [sampleOf_short _ f0 (Nat.le_of_lt hS), hts, Bool.false_eq_true, if_false, hhdr, hW0, h1]
+    | cons fr frs =>
+      subst hfr
+      refine ⟨fr :: frs, W0', Ws, ?_, h2, h3, h4⟩
+      unfold readFiles readFilesWith
+      simp only [sampleOf_short _ f0 (Nat.le_of_lt hS), hts, Bool.false_eq_true, if_false, hhdr, hW0, h1]
+
 /-! ## corollaries: the combinations (header absent | 'infer' | 0 | None) × (names given | not given) -/
 
 theorem mlines_simple (pre rest : List Nat) (hpre : 10 ∉ pre) :
@@ -307,7 +306,7 @@ theorem csv_opts_rows (u : Kw) (hm : InMatrix u) (S : Nat) (pre rest : List Nat)
       frames.flatMap (·.rows) = W.rows ∧ ∀ f ∈ frames, f.cols = W.cols := by
   have hok := first_covers_simple u hm.1 hm.resolve pre rest hpre hnb b hb hsz
   obtain ⟨hdr, hhdr⟩ := header_available u _ b hb hok (hm.eff _ (by cases pre <;> simp))
-  obtain ⟨frames, W0, Ws, h1, h2, h3, h4⟩ := read_files_eq_pandas u S _ [] b hb (by cases pre <;> simp)
+  obtain ⟨frames, W0, Ws, h1, h2, h3, h4⟩ := read_files_eq_pandas u S _ [] b hb
     (by unfold sampleSize; rw [hm.1]; simpa using hS) hdr hhdr
     (by intro d hd; simp at hd; subst hd; exact hok) (by intro d hd; simp at hd)
   have hW : pdFrame u (pre ++ 10 :: rest) = some W0 ∧ Ws = [] := by
@@ -333,11 +332,10 @@ theorem pdFrame_simple_noheader (u : Kw) (hs : u.skiprows = 0) (hr : resolve u =
   rw [pdFrame_simple u hs pre rest hpre hnb, hr]
   simp
 
-/-- **names= without a header row, ANY non-empty file content** (no other assumption on the file): every line that is
-    not blank is a row, in every block. (An EMPTY file makes `dd.from_map` raise ValueError where pandas returns an
-    empty frame: recorded as a finding.) -/
+/-- **names= without a header row, ANY file content** (no assumption on the file at all, the empty file included after
+    fix 9074abb): every line that is not blank is a row, in every block -/
 theorem csv_names_any_file (u : Kw) (hn : u.names = true) (hs : u.skiprows = 0)
-    (hh : u.header = none ∨ u.header = some .none) (S : Nat) (data : List Nat) (hne : data ≠ []) (b : Nat) (hb : 0 < b)
+    (hh : u.header = none ∨ u.header = some .none) (S : Nat) (data : List Nat) (b : Nat) (hb : 0 < b)
     (hsz : data.length < 2 ^ 53) (hS : data.length < S) :
     ∃ frames, readFiles u S [data] (some b) = some frames ∧ frames.flatMap (·.rows) = kept 0 (mlines data) ∧
       ∀ f ∈ frames, f.cols = none := by
@@ -350,7 +348,7 @@ theorem csv_names_any_file (u : Kw) (hn : u.names = true) (hs : u.skiprows = 0)
     cases blocks with
     | nil => exact hn
     | cons b0 bs => exact ⟨by rw [hs]; exact Nat.zero_le _, by unfold Covers; rw [hr]; exact Or.inl hn⟩
-  obtain ⟨frames, W0, Ws, h1, h2, h3, h4⟩ := read_files_eq_pandas u S data [] b hb hne
+  obtain ⟨frames, W0, Ws, h1, h2, h3, h4⟩ := read_files_eq_pandas u S data [] b hb
     (by unfold sampleSize; rw [hs]; simpa using hS) [] (by unfold headerBytes; rw [hE])
     (by intro d hd; simp at hd; subst hd; exact hok) (by intro d hd; simp at hd)
   have hW : pdFrame u data = some W0 ∧ Ws = [] := by
@@ -389,7 +387,7 @@ theorem csv_files_rows (u : Kw) (hm : InMatrix u) (hr : CsvOpts.resolve u = some
     rw [pdFrame_simple_header u hm.1 hr pre r hpre hnb, hn]; rfl
   obtain ⟨hdr, hhdr⟩ := header_available u (pre ++ 10 :: r0) b hb (hok _ (by simp)) (Or.inl hn)
   obtain ⟨frames, W0, Ws, h1, h2, h3, h4⟩ := read_files_eq_pandas u S (pre ++ 10 :: r0)
-    (rests.map fun r => pre ++ 10 :: r) b hb (by cases pre <;> simp) (by unfold sampleSize; rw [hm.1]; simpa using hS) hdr hhdr
+    (rests.map fun r => pre ++ 10 :: r) b hb (by unfold sampleSize; rw [hm.1]; simpa using hS) hdr hhdr
     (by simpa using hok)
     (by
       intro d hd W W0 hW hW0
@@ -517,10 +515,10 @@ theorem roundtrip_multi_file (pre : List Nat) (hpre : 10 ∉ pre) (hnb : isBlank
   exact this _ hrows
 
 /-- **to_csv(header=False, single_file=True) → read_csv(names=…)**: no header line anywhere; read back with `names`
-    every row returns, for every blocksize (at least one row: an empty file cannot be read, see `csv_names_any_file`) -/
+    every row returns, for every blocksize (also for a frame without any row) -/
 theorem roundtrip_no_header (hf : Option Bool) (hhf : hf = none ∨ hf = some true) (cols : List Nat)
     (p0 : List (List Nat)) (ps : List (List (List Nat))) (hrows : ∀ p ∈ p0 :: ps, ∀ r ∈ p, RowLine r) (b : Nat)
-    (hb : 0 < b) (S : Nat) (hne : (p0 :: ps).flatten.flatten ≠ []) (hsz : ((p0 :: ps).flatten.flatten).length < 2 ^ 53)
+    (hb : 0 < b) (S : Nat) (hsz : ((p0 :: ps).flatten.flatten).length < 2 ^ 53)
     (hS : ((p0 :: ps).flatten.flatten).length < S) :
     ∃ frames, writeFiles ⟨true, hf, false⟩ cols (p0 :: ps) = some [(p0 :: ps).flatten.flatten] ∧
       readFiles ⟨none, true, 0⟩ S [(p0 :: ps).flatten.flatten] (some b) = some frames ∧
@@ -534,7 +532,7 @@ theorem roundtrip_no_header (hf : Option Bool) (hhf : hf = none ∨ hf = some tr
     intro r hr
     obtain ⟨p, hp, hrp⟩ := List.mem_flatten.mp hr
     exact hrows p hp r hrp
-  obtain ⟨frames, h1, h2, _⟩ := csv_names_any_file ⟨none, true, 0⟩ rfl rfl (Or.inl rfl) S _ hne b hb hsz hS
+  obtain ⟨frames, h1, h2, _⟩ := csv_names_any_file ⟨none, true, 0⟩ rfl rfl (Or.inl rfl) S _ b hb hsz hS
   exact ⟨frames, hw, h1, by rw [h2]; exact kept_mlines_rows _ hall⟩
 
 /-- the options `to_csv` rejects: `header_first_partition_only=False` together with `single_file=True` -/
